@@ -209,7 +209,7 @@ func keyComponentOf(v ssa.Value, f *types.Var) (int, bool) {
 
 func ruleC29(c *Ctx, r *Report) {
 	const rule = "MP-C29"
-	r.floor(rule, 20)
+	r.floor(rule, 22)
 	um := c.NamedType(serverRel, "UserManager")
 	fNS := c.Field(serverRel, "UserManager", "userNamespaces")
 	fUsers := c.Field(serverRel, "UserManager", "users")
@@ -798,6 +798,71 @@ func ruleC29(c *Ctx, r *Report) {
 		}
 	}
 
+	// ---- (clone) the copy shares no password list with its source, and clearing builds a new list
+	{
+		name := c.FuncName(clone)
+		nu := 0
+		allInstrs(clone, func(in ssa.Instruction) {
+			mu, ok := in.(*ssa.MapUpdate)
+			if !ok || !mapOfField(mu.Map, fUsers) {
+				return
+			}
+			nu++
+			cons := fmt.Sprintf("clone:password-list-copied#%d", nu)
+			if _, fresh := stripValue(mu.Value).(*ssa.MakeSlice); fresh {
+				r.ok(rule, name, cons, c.Pos(mu.Pos()), "the clone gets a newly made password list (filled by copy)")
+			} else {
+				r.viol(rule, name, cons, c.Pos(mu.Pos()), "the cloned UserManager shares a password list's backing array with the manager handshakes are reading: editing the clone during a prepare changes which credentials authenticate before (or without) the commit")
+			}
+		})
+		if nu == 0 {
+			r.undecided(rule, name, "clone:password-list-copied", c.Pos(clone.Pos()), "no store into the clone's users map found")
+		}
+		cname := c.FuncName(clear)
+		allInstrs(clear, func(in ssa.Instruction) {
+			mu, ok := in.(*ssa.MapUpdate)
+			if !ok || !mapOfField(mu.Map, fUsers) {
+				return
+			}
+			// walk the append chain down to its base
+			okBase := true
+			seen := map[ssa.Value]bool{}
+			var walk func(v ssa.Value)
+			walk = func(v ssa.Value) {
+				v = stripValue(v)
+				if seen[v] {
+					return
+				}
+				seen[v] = true
+				switch x := v.(type) {
+				case *ssa.Phi:
+					for _, e := range x.Edges {
+						walk(e)
+					}
+				case *ssa.Call:
+					if b, ok := x.Call.Value.(*ssa.Builtin); ok && b.Name() == "append" {
+						walk(x.Call.Args[0])
+						return
+					}
+					okBase = false
+				case *ssa.Const:
+					if !x.IsNil() {
+						okBase = false
+					}
+				case *ssa.MakeSlice:
+				default:
+					okBase = false
+				}
+			}
+			walk(mu.Value)
+			if okBase {
+				r.ok(rule, cname, "clear:new-list", c.Pos(mu.Pos()), "the filtered password list is built from nil, not in place")
+			} else {
+				r.viol(rule, cname, "clear:new-list", c.Pos(mu.Pos()), "the filtered password list reuses the existing list's backing array (filtered in place): a list still shared with another UserManager is rewritten under it")
+			}
+		})
+	}
+
 	// ---- (clone) Manager edits only fresh copies
 	{
 		n := 0
@@ -977,7 +1042,7 @@ func init() {
 
 func ruleC30(c *Ctx, r *Report) {
 	const rule = "MP-C30"
-	r.floor(rule, 11)
+	r.floor(rule, 14)
 	fUsers := c.Field(serverRel, "UserManager", "users")
 	calcNative := c.Func("mysql", "CalcPassword")
 	calcSha2 := c.Func("mysql", "CalcCachingSha2Password")
@@ -1104,6 +1169,52 @@ func ruleC30(c *Ctx, r *Report) {
 		if nt == 0 {
 			r.undecided(rule, name, "accept:true-return", c.Pos(fn.Pos()), "no accepting return found")
 		}
+		// a rejection is answered only after every candidate of users[user] was tried: each `return false` is dominated
+		// by the exit edge of the loop over the candidates
+		var exitEdges []CondEdge
+		allInstrs(fn, func(in ssa.Instruction) {
+			b, ok := in.(*ssa.BinOp)
+			if !ok || b.Op != token.LSS {
+				return
+			}
+			l, ok := stripValue(b.Y).(*ssa.Call)
+			if !ok {
+				return
+			}
+			bi, ok := l.Call.Value.(*ssa.Builtin)
+			if !ok || bi.Name() != "len" {
+				return
+			}
+			lk, ok := stripValue(l.Call.Args[0]).(*ssa.Lookup)
+			if !ok || !mapOfField(lk.X, fUsers) {
+				return
+			}
+			for _, e := range condEdges(b) {
+				if !e.Val {
+					exitEdges = append(exitEdges, e)
+				}
+			}
+		})
+		nf := 0
+		for _, ret := range returnsOf(fn) {
+			v0, zero := retValues(ret, 0)
+			if zero || len(v0) != 1 {
+				continue
+			}
+			if b, ok := constBool(v0[0]); !ok || b {
+				continue
+			}
+			nf++
+			cons := fmt.Sprintf("reject:after-all-candidates#%d", nf)
+			if len(exitEdges) > 0 && edgesDominate(fn, exitEdges, ret.Block()) {
+				r.ok(rule, name, cons, c.Pos(ret.Pos()), "the rejection is returned only after the loop over users[user] is exhausted")
+			} else {
+				r.viol(rule, name, cons, c.Pos(ret.Pos()), "the check can answer false before every configured password of the user was tried: a correct proof for a later candidate is rejected")
+			}
+		}
+		if nf == 0 {
+			r.undecided(rule, name, "reject:after-all-candidates", c.Pos(fn.Pos()), "no rejecting return found")
+		}
 	}
 	// mysql.CheckHashPassword: true only as the result of bytes.Equal
 	{
@@ -1135,6 +1246,40 @@ func ruleC30(c *Ctx, r *Report) {
 			r.ok(rule, name, "accept:result-is-equality", c.Pos(checkHash.Pos()), "answers true only as the result of bytes.Equal on whole slices")
 		} else {
 			r.viol(rule, name, "accept:result-is-equality", c.Pos(checkHash.Pos()), "can answer true other than through a full bytes.Equal comparison")
+		}
+	}
+	// the whole response takes part: when mysql.CheckHashPassword reads the response by index, its length is tested for
+	// (in)equality with the digest size (a `<` guard lets a longer response with a correct prefix pass)
+	{
+		name := c.FuncName(checkHash)
+		resp := ssa.Value(checkHash.Params[0])
+		indexed, lenEq := false, false
+		allInstrs(checkHash, func(in ssa.Instruction) {
+			switch x := in.(type) {
+			case *ssa.IndexAddr:
+				if stripValue(x.X) == resp {
+					indexed = true
+				}
+			case *ssa.BinOp:
+				if x.Op != token.EQL && x.Op != token.NEQ {
+					return
+				}
+				for _, side := range []ssa.Value{x.X, x.Y} {
+					if l, ok := stripValue(side).(*ssa.Call); ok {
+						if bi, ok := l.Call.Value.(*ssa.Builtin); ok && bi.Name() == "len" && stripValue(l.Call.Args[0]) == resp {
+							lenEq = true
+						}
+					}
+				}
+			}
+		})
+		switch {
+		case !indexed:
+			r.ok(rule, name, "accept:whole-response", c.Pos(checkHash.Pos()), "the response is only used as a whole")
+		case lenEq:
+			r.ok(rule, name, "accept:whole-response", c.Pos(checkHash.Pos()), "the response is read by index under a length (in)equality test")
+		default:
+			r.viol(rule, name, "accept:whole-response", c.Pos(checkHash.Pos()), "the response is read byte by byte without its length being tested for equality with the digest size: bytes beyond the digest are ignored, so a longer response with a correct prefix is accepted (MySQL accepts exactly 20 bytes)")
 		}
 	}
 	// purity: no write through slice parameters
